@@ -26,6 +26,8 @@ func main() {
 		cmdStreamFn(args)
 	case "params":
 		cmdParams(args)
+	case "lists":
+		cmdLists(args)
 	case "denom":
 		cmdDenom(args)
 	default:
